@@ -848,11 +848,11 @@ class merge_plan:
     def _ensure_livefs_is_loaded(self, restrict):
         # do a trick to make the resolver now aware of vdb pkgs if needed
         # check for any matches; none, try and insert vdb nodes.
-        l = self.state.match_atom(restrict)
-        if not l:
-            # hmm. ok... no conflicts, so we insert in vdb matches
-            # to trigger a replace instead of an install
-            for pkg in self.livefs_dbs.itermatch(restrict):
+        # insert the vdb matches whose slot is still free: triggers a replace
+        # instead of an install, and lets a blocker see every installed pkg it
+        # hits- not only those in the slots the plan already knows about.
+        for pkg in self.livefs_dbs.itermatch(restrict):
+            if self.state.state.get_conflicting_slot(pkg) is None:
                 self._dprint("inserting vdb node for %s %s", (restrict, pkg))
                 c = choice_point(restrict, [pkg])
                 state.add_op(c, c.current_pkg, force=True).apply(self.state)
